@@ -18,7 +18,15 @@ def wire_pool(ctx, prefixes=None, nrand=10, every=1, extra=()):
     mat = gen.matrix_protos()
     if prefixes:
         mat = [p for p in mat if p.tag.startswith(tuple(prefixes))]
-    mat = mat[::every]
+    if every > 1:
+        # sampling applies to the large regular families (scalars, strings, paddings, MetaData typing); the structural protocols
+        # (objects, match tables, length, checksum, identifier shapes, kitchen sink) are few and each is one of a kind
+        dense = ('Mn', 'Ms', 'Mf', 'Mp', 'Md', 'Mc', 'Ml')
+        keep = [p for p in mat if not p.tag.startswith(dense)]
+        for fam in ('Mc', 'Ml'):        # the regular part of these families is sampled, their special cases at the end are kept
+            keep += [p for p in mat if p.tag.startswith(fam)][-9:]
+        sampled = [p for p in mat if p.tag.startswith(dense)][::every]
+        mat = sampled + [p for p in keep if p not in sampled]
     pool = list(mat)
     n = nrand if quick else nrand * 10
     for i in range(n):
@@ -234,6 +242,7 @@ def c03(ctx):
         enc[lang] = dict(res)
     cells = collections.Counter()
     dec_cases = {lang: {} for lang in LANGS5}
+    deviant_bytes = set()       # (protocol, case id) of byte strings only a minority of the encoders produced
     for it in items:
         langs_ok = []
         for lang in LANGS5:
@@ -278,8 +287,11 @@ def c03(ctx):
                         triage_wire(ctx, 'C03', lang, it, 'encoders-disagree' if r != 'ERR' else 'encoder-fails-alone', what,
                                     {'message': msg_json(it.msgs[i][1]), 'outputs': {k: (v if isinstance(v, str) else str(v)) for k, v in outs.items()}})
             # decode phase inputs: every distinct byte string produced
+            majority = max(groups.values(), key=len) if groups else []
             for r in groups:
                 if r != 'ERR':
+                    if groups[r] is not majority:
+                        deviant_bytes.add((it.tag, '%d_%s' % (i, groups[r][0])))
                     for lang in langs_ok:
                         dec_cases[lang].setdefault(it.tag, []).append(('%d_%s' % (i, groups[r][0]), bytes.fromhex(r)))
     # phase 2: cross decoding
@@ -319,17 +331,21 @@ def c03(ctx):
             for lang, c in canons.items():
                 groups[c[:2] if c[0] == 'OK' else ('ERR',)].append(lang)
             major = max(groups.values(), key=len) if groups else []
-            for lang, c in canons.items():
-                ctx.evaluated(1, key=(it.tag, cid, lang, 'dec'))
+            # bytes only a minority of the encoders produced are already reported against their producer (encoders-disagree); what
+            # the other languages' decoders make of them is a consequence of that, and is filed under the producer as well
+            deviant = (it.tag, cid) in deviant_bytes
+            for declang, c in canons.items():
+                lang = producer if deviant else declang
+                ctx.evaluated(1, key=(it.tag, cid, declang, 'dec'))
                 if c[0] == 'ERR':
-                    triage_wire(ctx, 'C03', lang, it, 'decoder-rejects-peer-bytes', '%s decoder fails on bytes produced by %s: %s' % (lang, producer, c[1][:200]), {'case': cid, 'message': msg_json(it.msgs[i][1])})
+                    triage_wire(ctx, 'C03', lang, it, 'decoder-rejects-peer-bytes', '%s decoder fails on bytes produced by %s%s: %s' % (declang, producer, ' (deviant bytes)' if deviant else '', c[1][:200]), {'case': cid, 'message': msg_json(it.msgs[i][1])})
                     continue
-                if lang not in major and major and canons[major[0]][0] == 'OK':
+                if declang not in major and major and canons[major[0]][0] == 'OK':
                     d = wire.canon_diff(c[1], canons[major[0]][1])
-                    triage_wire(ctx, 'C03', lang, it, 'decoders-disagree', '%s decodes %s\'s bytes differently from %s: %s' % (lang, producer, '/'.join(major), d), {'case': cid, 'message': msg_json(it.msgs[i][1])})
+                    triage_wire(ctx, 'C03', declang, it, 'decoders-disagree', '%s decodes %s\'s bytes differently from %s: %s' % (declang, producer, '/'.join(major), d), {'case': cid, 'message': msg_json(it.msgs[i][1])})
                 d = wire.canon_diff(mask_computed(it.proto, it.proto.root.fields, c[1]), want)
                 if d:
-                    triage_wire(ctx, 'C03', lang, it, 'peer-bytes-decode-to-other-message', '%s decoding %s\'s bytes does not recover the input message: %s' % (lang, producer, d), {'case': cid, 'message': msg_json(it.msgs[i][1])})
+                    triage_wire(ctx, 'C03', lang, it, 'peer-bytes-decode-to-other-message', '%s decoding %s\'s bytes%s does not recover the input message: %s' % (declang, producer, ' (deviant bytes)' if deviant else '', d), {'case': cid, 'message': msg_json(it.msgs[i][1])})
     ctx.cov['matrix_cells'] = {'%s->%s' % k: v for k, v in sorted(cells.items())}
     it = items[0]
     ctx.sample({'dsl': it.text[:600], 'message': msg_json(it.msgs[0][1]), 'bytes_by_language': {l: enc[l][it.tag].enc.get(0) for l in LANGS5 if it.tag in enc[l]}})
